@@ -77,7 +77,7 @@ def features(core, kind, det):
     if "tailstrict" in core and isinstance(det, dict) and "tailstrict" not in det.get("output", "tailstrict"):
         f.append("tailstrict-dropped")
     if "|||" in core:
-        f.append("text-block")
+        f.append("crlf-text-block" if "\r\n" in core else "text-block")
     if re.search(r"\d\s*\.\s*[A-Za-z_]", core) and not f:
         f.append("field-access-on-number-literal")
     return "+".join(f) or "no-comment"
@@ -131,8 +131,12 @@ def shard(idx, n, tier, seed, binary):
                 acc_seq.append(text)
         for t in acc_seq:
             check_program(acc, w, t, "token-seq", 0)
+        for t in fmtlib.generated(seed, idx, (4000 if tier == "quick" else 80000) // n):
+            check_program(acc, w, t, "generated", 0)
         for t in runner.chunks(corpus, idx, n):
             check_program(acc, w, t, "corpus", 0)
+            if "\n" in t:
+                check_program(acc, w, t.replace("\n", "\r\n"), "corpus-crlf", 0)
             toks = w.call({"op": "lex", "code": t}).get("tokens", [])
             for d, nc in fmtlib.decorate(t, toks, rng, 8 if tier == "quick" else 60):
                 check_program(acc, w, d, "decorated", nc)
